@@ -17,6 +17,7 @@ import PyTough.Proofs.ListingSeriesStep
 import PyTough.Proofs.ListingSeriesTimes
 import PyTough.Proofs.ListingSeriesTerm
 import PyTough.Proofs.ListingSeries2Aut
+import PyTough.Proofs.ListingSeries2Region
 import PyTough.Props.C05
 
 namespace Props.C06
@@ -105,6 +106,74 @@ example : exT.data.size = exT.rows.size ∧ rowInPlace exT exL 0 0 = true ∧ ro
 -- history() asked for X of row 1 (line 2) and then P of row 0 reads them in line order
 example : (scanSel (fun l => readTableLineTOUGH2 l 3 exT.numpos) (colIdx exT.cols) (sortSel [(2, ['X'], false, 0), (0, ['P'], false, 1)]) 0
     (exL.headD []) exL.tail).map (·.1) = .ok [(1, .fin false 99013 2), (0, .fin true 66842 (-4))] := by decide
+
+/-! ### … from the REGION predicate of the table instead of `rowInPlace` (TOUGH2 family)
+
+  `Props.C05.TableRegionT t header segs` (decidable on concrete lines) describes the lines of a table as the layout recorded at
+  set-up sees them: `header_skiplines` lines, then for every entry of `skiplines` one printed data line followed by that many lines.
+  On such a region the offset `rowOffset t.skips k` at which the scan expects the k-th row line IS the k-th printed data line
+  (`Proofs.Series2Region.lineAt_region`), and stepping is known to succeed (`Props.C05.table_read_TOUGH2`), so neither
+  `rowInPlace` nor a successful `readRowsL` has to be assumed. -/
+
+open Proofs.Whole Proofs.Series2Region in
+/-- PARTIAL (one table at one result time; decidable hypothesis `TableRegionT`; the selected rows are printed once — no later data
+    line of the table names the same row; the line index of an entry is `rowOffset t.skips k` for the data line `k` it stands for).
+    For a reader whose `read_table_line` is `read_table_line_TOUGH2` (TOUGH2, TOUGH2_MP, TOUGH3, TOUGHREACT, TOUGH+): the stepping
+    reader `read_table_TOUGH2`, started at the first line of the region, succeeds and builds table `t'`; for ANY selection `ts` (any
+    number, any order, repeats, reversed names) history()'s one-pass read over the lines from the first data line on returns, entry
+    by entry in sorted order, the cell of row `row e` (the row NAMED by the key printed on that data line), column `e.col`, of `t'`,
+    negated for a reversed name — KeyError on both sides for an unknown column.
+    Not proved: that set-up records `row_line[row e] = rowOffset t.skips k` (the loop of setup_table_TOUGH2 counts lines exactly
+    as `skiplines` sums them — evaluated per file by the correspondence), and `Aligned`. -/
+theorem history_table_eq_stepping_region_partial (fam : Fam) (tn : String) (t : Table) (s : Rd) (header : List Str)
+    (segs : List (Str × List Str)) (after : List Str)
+    (hfam : (bound fam "read_table_line" == "read_table_line_AUTOUGH2") = false)
+    (ht : s.tables.lookup tn = some t)
+    (hrest : s.pos.rest = header ++ (flat segs ++ after))
+    (hwf : Props.C05.TableRegionT t header segs)
+    (ts : List Sel) (row : Sel → Nat)
+    (hsel : ∀ e ∈ ts, ∃ (k : Nat) (d : Str) (vals : List FVal), (segs.map (·.1))[k]? = some d ∧ e.1 = (rowOffset t.skips k : Nat) ∧
+        rowOfLineT t.rows t.keyPos t.cols.length t.numpos d = some (row e, vals) ∧
+        ∀ (k' : Nat) d', k < k' → (segs.map (·.1))[k']? = some d' →
+          ∀ v', rowOfLineT t.rows t.keyPos t.cols.length t.numpos d' ≠ some (row e, v')) :
+    ∃ s' t', (readTableTOUGH2 tn).run s = .ok ((), s') ∧ s'.tables.lookup tn = some t' ∧
+      (scanSel (readTableLineOf fam t) (colIdx t.cols) (sortSel ts) 0 ((flat segs ++ after).headD []) (flat segs ++ after).tail).map (·.1)
+        = (sortSel ts).mapM (fun e => steppingCell t' (row e) e) := by
+  obtain ⟨s', t', hrun, _, htab, hframe, _, hline, _⟩ := Props.C05.table_read_TOUGH2 tn t s header segs after ht hrest hwf
+  refine ⟨s', t', hrun, htab, ?_⟩
+  rw [readTableLineOf_T fam t hfam]
+  have h1 := Proofs.History.scanSel_eq (fun l => readTableLineTOUGH2 l t.cols.length t.numpos) (colIdx t.cols) (flat segs ++ after)
+    (sortSel ts) 0 ((flat segs ++ after).headD []) (flat segs ++ after).tail
+    (by rw [← Proofs.History.headD_drop]; rfl) (by rw [← List.drop_one]) (Proofs.History.sortSel_ascending ts 0 (by
+      intro e he; obtain ⟨k, _, _, _, hk, _⟩ := hsel e he; rw [hk]; exact Int.natCast_nonneg _))
+  refine h1.trans ?_
+  apply mapM_congr_mem
+  intro e he
+  obtain ⟨k, d, vals, hkd, hek, hrow, hlater⟩ := hsel e ((Proofs.History.sortSel_perm ts).mem_iff.mp he)
+  obtain ⟨_, _, _, hv, hl⟩ := (rowOfLineT_spec _ _ _ _ _ _ _).mp hrow
+  have hat : Proofs.History.lineAt (flat segs ++ after) e.1.toNat = d := by
+    rw [hek, Int.toNat_natCast, ← hwf.2.1]; exact lineAt_region segs after k d hkd
+  exact cellOf_eq_steppingCell_row _ t.cols t' _ (by rw [hframe]) e (row e) vals (by rw [hat]; exact hv) hl
+    (hline k d (row e) vals hkd hrow hlater)
+
+-- the table of C05's example (header line, blank line, a data line followed by a blank line, a data line, the `@@@@@` line)
+private def exT2 : Table :=
+  { mkTable [['P'], ['T'], ['X']] #[[" AA 1".toList], [" BA 1".toList]] 1 false with
+    keyPos := [1], numpos := [some 12, some 24, some 36, some 49], headerSkip := 2, skips := [1, 0] }
+private def exHdr : List Str := [" ELEM. INDEX P T X\n".toList, "\n".toList]
+private def exSegs : List (Str × List Str) :=
+  [("  AA 1     1 0.99013E+07 0.00000E+00-0.12409E+03\n".toList, ["\n".toList]),
+   ("  BA 1     2 0.94153E+07 0.19209-103-0.66842E+01\n".toList, [])]
+private def exRdT : Rd :=
+  { all := exHdr ++ (Proofs.Whole.flat exSegs ++ [" @@@@@@@@@@\n".toList]), isOutputData := false,
+    pos := ⟨0, exHdr ++ (Proofs.Whole.flat exSegs ++ [" @@@@@@@@@@\n".toList])⟩, fam := Fam.tough2, tables := [("element", exT2)] }
+example : (bound Fam.tough2 "read_table_line" == "read_table_line_AUTOUGH2") = false ∧ exRdT.tables.lookup "element" = some exT2 ∧
+    exRdT.pos.rest = exHdr ++ (Proofs.Whole.flat exSegs ++ [" @@@@@@@@@@\n".toList]) ∧ Props.C05.TableRegionT exT2 exHdr exSegs :=
+  ⟨by decide, rfl, rfl, by decide⟩
+-- the entry (line 2, X) stands for data line k = 1, which names row 1 and is the last data line: the hypothesis on entries holds
+example : (exSegs.map (·.1))[1]? = some exSegs[1].1 ∧ ((2 : Int) = (rowOffset exT2.skips 1 : Nat)) ∧
+    Proofs.Whole.rowOfLineT exT2.rows exT2.keyPos exT2.cols.length exT2.numpos exSegs[1].1
+      = some (1, [.fin false 94153 2, .fin false 19209 (-108), .fin true 66842 (-4)]) := by decide
 
 /-! ### the same for the AUTOUGH2 row loop (terminator-driven: rows are filled in printing order)
 
